@@ -1,4 +1,4 @@
-HOOK_COMMITS = ["5725d8a", "72fc8af", "02a3b0a", "612d0fb", "b86372f"]
+HOOK_COMMITS = ["5725d8a", "72fc8af", "02a3b0a", "612d0fb", "b86372f", "85d33e5"]
 
 TEXT = {
     "C01": {
